@@ -446,6 +446,9 @@ struct Cfg {
     poll_driver: bool,
     /// `ProactorBuilder::thread_pool_limit` of the pool shared by the dispatcher and its workers
     pool_limit: Option<usize>,
+    /// `dc`: `DispatcherBuilder::concurrent` is NOT called -- the builder's default mode is used, which the `cfg`
+    /// line (and so the Lean model) takes to be concurrent (`Gen.DispatcherLoop.defaultConcurrent`)
+    default_mode: bool,
 }
 
 fn parse_cfg(ws: &[&str]) -> Option<Cfg> {
@@ -458,12 +461,17 @@ fn parse_cfg(ws: &[&str]) -> Option<Cfg> {
     if w == 0 || w > MAX_WORKERS {
         return None;
     }
-    let mut cfg = Cfg { w, conc, stack: None, affinity: false, capacity: None, poll_driver: false, pool_limit: None };
+    let mut cfg = Cfg { w, conc, stack: None, affinity: false, capacity: None, poll_driver: false, pool_limit: None, default_mode: false };
     for o in &ws[2..] {
         if let Some(v) = o.strip_prefix("stack=") {
             cfg.stack = v.parse().ok();
         } else if *o == "aff" {
             cfg.affinity = true;
+        } else if *o == "dc" {
+            if !conc {
+                return None;
+            }
+            cfg.default_mode = true;
         } else if let Some(v) = o.strip_prefix("cap=") {
             cfg.capacity = v.parse().ok();
         } else if *o == "drv=poll" {
@@ -499,8 +507,10 @@ fn build_inner(cfg: &Cfg, ctx: &Arc<Ctx>) -> std::io::Result<Dispatcher> {
     let prefix = ctx.prefix();
     let mut b = Dispatcher::builder()
         .worker_threads(NonZeroUsize::new(cfg.w).unwrap())
-        .concurrent(cfg.conc)
         .thread_names(move |i| format!("{prefix}{i}"));
+    if !cfg.default_mode {
+        b = b.concurrent(cfg.conc);
+    }
     if let Some(s) = cfg.stack {
         b = b.stack_size(s);
     }
@@ -1368,6 +1378,10 @@ fn gen_cfg(rng: &mut Rng) -> (usize, bool, String) {
     }
     if rng.chance(1, 6) {
         s.push_str(" aff");
+    }
+    if conc && rng.chance(1, 4) {
+        // builder default mode (no `.concurrent(..)` call)
+        s.push_str(" dc");
     }
     // (the default 1024-entry ring costs tens of ms per worker to set up and tear down: rarely)
     if !rng.chance(1, 40) {
